@@ -37,11 +37,12 @@ None == "none"
 \* (= connections), challenges issued
 \* and accepted per connection, proved = pairs <<c, X>> "X was issued on c or c answered its
 \* latest challenge with X's key", pre = previous post-state.
-VARIABLES known, expired, barred, bl, wl, issuedN, usedN, proved, pre, hasPre
-avars == <<l, viol, known, expired, barred, bl, wl, issuedN, usedN, proved, pre, hasPre>>
+\* chalFor = triples <<c, n, X>> "challenge n of connection c was issued in answer to a phase 1 naming X"
+VARIABLES known, expired, barred, bl, wl, issuedN, usedN, proved, pre, hasPre, chalFor
+avars == <<l, viol, known, expired, barred, bl, wl, issuedN, usedN, proved, pre, hasPre, chalFor>>
 
 Init == /\ l = 1 /\ viol = {} /\ known = {} /\ expired = {} /\ barred = {} /\ bl = {} /\ wl = {}
-            /\ issuedN = {} /\ usedN = {} /\ proved = {} /\ pre = <<>> /\ hasPre = FALSE
+            /\ issuedN = {} /\ usedN = {} /\ proved = {} /\ pre = <<>> /\ hasPre = FALSE /\ chalFor = {}
 
 Latest(c) == LET ns == {p[2] : p \in {q \in issuedN : q[1] = c}} IN
              IF ns = {} THEN 0 ELSE CHOOSE n \in ns : \A m \in ns : m <= n
@@ -65,6 +66,8 @@ Legit(e) == CASE e.k = "FC" -> e.out.newid # None /\ e.out.newid \notin known /\
               [] e.k = "P2" -> KeyClass(e) = "own" /\ NonceClass(e) = "latest" /\ ClientClass(e) = "ok" /\ AddrClass(e) = "ok"
               [] OTHER -> FALSE
 Who(e) == IF e.k = "FC" THEN e.out.newid ELSE e.id
+\* an out-of-order phase 2: the challenge it answers was issued for a phase 1 that named another client
+OutOfOrder(e) == e.k = "P2" /\ e.over > 0 /\ <<e.c, e.over, e.id>> \notin chalFor
 
 TrMsg ==
   /\ Is("Msg")
@@ -86,14 +89,22 @@ TrMsg ==
          v5  == IF \E X \in chg : e.post.lookup[X] # None /\
                       ~(e.post.lookup[X] = e.c /\ e.c \in cs /\ e.post.conns[e.c].authd /\ e.post.conns[e.c].cid = X)
                 THEN {V("InstalledWithoutAuth", MsgShape(e))} ELSE {}
+         \* an out-of-order phase 2 changed which client an authenticated connection is authenticated as ...
+         flip == /\ ok /\ OutOfOrder(e) /\ PreAuthd(e.c) /\ e.c \in cs /\ e.post.conns[e.c].authd
+                 /\ e.post.conns[e.c].cid # PreCid(e.c)
+         v6  == IF flip THEN {V("IdentityFlipped", MsgShape(e))} ELSE {}
+         \* ... and made it the control channel of the client it now claims to be
+         v7  == IF flip /\ \E X \in chg : X # PreCid(e.c) /\ e.post.lookup[X] = e.c
+                THEN {V("ControlChannelTakenOver", MsgShape(e))} ELSE {}
          \* a clause is reported once per trace, with the detail of the message at which it was first violated
-         new == {v \in v1 \cup v2 \cup v3 \cup v4 \cup v5 : v.c \notin {w.c : w \in viol}}
+         new == {v \in v1 \cup v2 \cup v3 \cup v4 \cup v5 \cup v6 \cup v7 : v.c \notin {w.c : w \in viol}}
      IN /\ viol' = viol \cup new
         /\ proved' = pv
         /\ known' = IF e.out.newid # None THEN known \cup {e.out.newid} ELSE known
         /\ issuedN' = IF e.out.nonce > 0 THEN issuedN \cup {<<e.c, e.out.nonce>>} ELSE issuedN
         /\ usedN' = IF ok /\ e.k = "P2" /\ e.over > 0 THEN usedN \cup {<<e.c, e.over>>} ELSE usedN
         /\ pre' = e.post /\ hasPre' = TRUE
+        /\ chalFor' = IF e.k = "P1" /\ e.out.nonce > 0 THEN chalFor \cup {<<e.c, e.out.nonce, e.id>>} ELSE chalFor
         \* the protector itself declared the address banned on this message (accumulated failures): banned from now on
         /\ barred' = IF e.newban \in {"temp", "perm"} THEN barred \cup {e.c} ELSE barred
   /\ l' = l + 1 /\ UNCHANGED <<expired, bl, wl>>
@@ -107,11 +118,11 @@ TrEnv ==
   /\ expired' = IF Ev.k \in {"Expire", "Bind"}   \* isexp: the stored expiry date of the client lies in the past now
                 THEN (IF Ev.isexp THEN expired \cup {Ev.id} ELSE expired \ {Ev.id}) ELSE expired
   /\ known' = IF Ev.k = "Delete" THEN known \ {Ev.id} ELSE known   \* the record is gone: an unknown client from now on
-  /\ l' = l + 1 /\ UNCHANGED <<viol, issuedN, usedN, proved, pre, hasPre>>
+  /\ l' = l + 1 /\ UNCHANGED <<viol, issuedN, usedN, proved, pre, hasPre, chalFor>>
 
 TrEndAuth == /\ Is("End") /\ EmitVerdict
              /\ l' = l + 1 /\ viol' = {} /\ known' = {} /\ expired' = {} /\ barred' = {} /\ bl' = {} /\ wl' = {}
-             /\ issuedN' = {} /\ usedN' = {} /\ proved' = {} /\ pre' = <<>> /\ hasPre' = FALSE
+             /\ issuedN' = {} /\ usedN' = {} /\ proved' = {} /\ pre' = <<>> /\ hasPre' = FALSE /\ chalFor' = {}
 
 Next == TrMsg \/ TrEnv \/ TrEndAuth
 =============================================================================
